@@ -107,7 +107,16 @@ func genC03(c *Ctx) {
 			}
 		case kWrongLen:
 			for _, i := range invalid {
-				sigs[i] = sigs[i][:47-(i%3)*20]
+				switch (i + len(invalid)) % 4 {
+				case 0:
+					sigs[i] = sigs[i][:47-(i%3)*20]
+				case 1: // over-long: a valid signature followed by trailing bytes
+					sigs[i] = append(append([]byte{}, sigs[i]...), 0)
+				case 2:
+					sigs[i] = append(append([]byte{}, sigs[i]...), sigs[i]...)
+				case 3:
+					sigs[i] = nil
+				}
 			}
 		case kBadHeader:
 			for _, i := range invalid {
@@ -115,7 +124,7 @@ func genC03(c *Ctx) {
 			}
 		case kIdentityKey:
 			for _, i := range invalid {
-				pks[i] = c.identityKeys()[i%4]
+				pks[i] = pickIdentity(c, i)
 				modelK[i] = big.NewInt(0)
 				if i%2 == 0 {
 					sigs[i] = inf
